@@ -36,20 +36,25 @@ def cauchyLow (k _r j i : Nat) : Sym :=
   let p : Sym := BitVec.ofNat 16 (m + j)
   gmul (vanishProd m p) (ginv (gmul (wProd m) (p ^^^ BitVec.ofNat 16 i)))
 
-/-- recovery lanes by the closed form: `rec[j] = Σ_i G[j][i] · orig[i]` (lane-wise) -/
+/-- recovery lanes by the closed form: `rec[j] = Σ_i G[j][i] · orig[i]` (lane-wise).
+    Same matrix as `cauchyHigh` / `cauchyLow`, with the numerators `s_m(m+i)` resp. `s_m(m+j)`
+    computed once per column resp. row. -/
 def cauchyEncode {L : Nat} (rate : Rate) (k r : Nat) (orig : Array (Vector Sym L)) :
     Array (Vector Sym L) :=
   let m := match rate with | .high => npow2 r | .low => npow2 k
   let w := wProd m
+  let nums : Array Sym := match rate with
+    | .high => Array.ofFn (n := k) fun i => vanishProd m (BitVec.ofNat 16 (m + i.val))
+    | .low => Array.ofFn (n := r) fun j => vanishProd m (BitVec.ofNat 16 (m + j.val))
   Array.ofFn (n := r) fun j =>
     (List.range k).foldl (fun acc i =>
       let g : Sym := match rate with
         | .high =>
           let p : Sym := BitVec.ofNat 16 (m + i)
-          gmul (vanishProd m p) (ginv (gmul w (BitVec.ofNat 16 j.val ^^^ p)))
+          gmul (nums.getD i 0#16) (ginv (gmul w (BitVec.ofNat 16 j.val ^^^ p)))
         | .low =>
           let p : Sym := BitVec.ofNat 16 (m + j.val)
-          gmul (vanishProd m p) (ginv (gmul w (p ^^^ BitVec.ofNat 16 i)))
+          gmul (nums.getD j.val 0#16) (ginv (gmul w (p ^^^ BitVec.ofNat 16 i)))
       ShardAlg.add acc (ShardAlg.smul g (orig.getD i (Vector.replicate L 0#16))))
       (Vector.replicate L 0#16)
 
@@ -57,6 +62,20 @@ def cauchyEncode {L : Nat} (rate : Rate) (k r : Nat) (orig : Array (Vector Sym L
 def cauchyEncodeBytes (rate : Rate) (k r sb : Nat) (orig : List (Array Nat)) : List (Array Nat) :=
   let lanes : Array (Vector Sym (sb / 2)) := (orig.map (layout sb)).toArray
   ((cauchyEncode rate k r lanes).map (unlayout sb)).toList
+
+/-- multiply every symbol of a shard (bytes) by the field constant `c` -/
+def scaleBytes (c : Sym) (sb : Nat) (shard : Array Nat) : Array Nat :=
+  unlayout sb ((layout sb shard).map (gmul c))
+
+/-! ### the LCH ("novel") polynomial basis -/
+
+/-- `X_t(x) = Π_{j ∈ bits t} s_j(x)` -/
+def lchBasis (t : Nat) (x : Sym) : Sym :=
+  (List.range 16).foldl (fun acc j => if t.testBit j then gmul acc (sPoly j x) else acc) gone
+
+/-- value at `x` of the polynomial with LCH coefficients `c` -/
+def lchEval (c : Array Sym) (x : Sym) : Sym :=
+  (List.range c.size).foldl (fun acc t => acc ^^^ gmul (c.getD t 0#16) (lchBasis t x)) 0#16
 
 /-! ### erasure locator -/
 
